@@ -526,10 +526,22 @@ def hStCase (args : List String) (real : Option String) : Option Out := do
           (match parseReqs r with
            | some reqs =>
              if reqs.map (·.1) != assigned then "FAIL C15.session-incomplete"
-             else verdict (reqs.all fun p => (p.2.getD 2 0) ≤ Startup.trueHigh c p.1) "C15.start-beyond-high"
+             else if !(reqs.all fun p => (p.2.getD 2 0) ≤ Startup.trueHigh c p.1) then "FAIL C15.start-beyond-high"
+             else
+               -- C06 (inductive from valid stored checkpoints): every request names a valid resume point
+               let storeValid := st.store.all fun (_, d) => d.ss ≤ d.seq && d.seq ≤ d.se
+               verdict (!storeValid || reqs.all fun p => p.2.getD 4 0 ≤ p.2.getD 2 0 && p.2.getD 2 0 ≤ p.2.getD 5 0) "C06.valid-offset"
            | none => "FAIL C15.unparsable")
         | ["seqno-error"] => if f7 == "swallows" then kfF7 else "FAIL C15.ran-despite-seqno-error"
-        | why :: _ => s!"FAIL C15.ran-despite-{why}"
+        | why :: _ =>
+          -- a session that should not exist: besides C15, do its requests at least name valid resume points (C06)?
+          -- fields of a logged request: flags, uuid, start, end, snapStart, snapEnd
+          let invalid := (st.store.all fun (_, d) => d.ss ≤ d.seq && d.seq ≤ d.se) && match parseReqs r with
+            | some reqs => reqs.any fun p =>
+                let st := p.2.getD 2 0; let ss := p.2.getD 4 0; let se := p.2.getD 5 0
+                !(ss ≤ st && st ≤ se)
+            | none => false
+          s!"FAIL C15.ran-despite-{why}" ++ (if invalid then " C06.valid-offset" else "")
       else if (t.head?.getD "").startsWith "exit-fail:" then
         if t.contains "events=some" then
           -- only sibling traffic can reach the consumer before the process stops (finding F13)
